@@ -134,6 +134,35 @@ func streamRepeat() {
 			add(repeatCase{kind: "dict-paths", args: append([]string{"info", "chord", "describe", "-t", "Ccl"}, fl...), manyRuns: true})
 		}
 	}
+	// a dictionary with one faulty entry among good ones (re-defined built-in names, names defined twice, the faulty
+	// entry not played): whether it is refused must not depend on the order in which the entries happen to be visited
+	{
+		dir := filepath.Join(outDir, "repeat-faulty")
+		must(os.MkdirAll(dir, 0o755))
+		good := "- name: Fine1\n  meta: {display: f1}\n  extends: MajorTriad\n  attributes: [Major9]\n- name: Fine2\n  meta: {display: f2}\n  extends: f1\n- name: MinorSeventh\n  meta: {display: mi7}\n  extends: MinorTriad\n  attributes: [Minor7]\n"
+		faults := []string{
+			"- name: Sixth\n  meta: {display: six}\n  extends: NoSuchChord\n",
+			"- name: Sixth\n  meta: {display: six}\n  attributes: [Perfect1, NoSuchAttr]\n",
+			"- name: DominantNinth\n  meta: {display: d9}\n  extends: d9\n",
+			"- name: MajorNinth\n  meta: {display: mj9}\n  extends: MajorSeventh\n  attributes: [Mjor9]\n",
+			"- name: Fresh\n  meta: {display: fr}\n  extends: NoSuchChord\n",
+			"- name: Twice\n  meta: {display: tw1}\n  extends: NoSuchChord\n- name: Twice\n  meta: {display: tw2}\n  extends: MinorTriad\n",
+			"- name: Twice\n  meta: {display: tw1}\n  attributes: [NoSuchAttr]\n- name: Twice\n  meta: {display: tw2}\n  attributes: [Perfect1]\n",
+			"- name: SuspendedFourth\n  meta: {display: sus}\n  extends: sus4\n  attributes: [Major9]\n", // not faulty: builds on what it replaces
+		}
+		doc := []byte("- chord: {degree: \"1\", name: m}\n  values: [1]\n- chord: {degree: \"4\", name: f2}\n  values: [1]\n")
+		for k, f := range faults {
+			for o, body := range []string{good + f, f + good} {
+				path := filepath.Join(dir, fmt.Sprintf("faulty-%d-%d.yml", k, o))
+				must(os.WriteFile(path, []byte(body), 0o644))
+				add(repeatCase{kind: "dict-faulty", args: []string{"write", "event", "--chord", path}, stdin: doc, readsInput: true, manyRuns: true})
+				if o == 0 {
+					add(repeatCase{kind: "dict-faulty", args: []string{"info", "chord", "list", "--chord", path}, manyRuns: true})
+					add(repeatCase{kind: "dict-faulty", args: []string{"info", "chord", "describe", "-t", "Cm", "--chord", path}, manyRuns: true})
+				}
+			}
+		}
+	}
 	// the two spellings of a switch
 	for _, t := range []string{"Caug", "F#m7b5", "Bbdim7"} {
 		add(repeatCase{kind: "switch", args: []string{"info", "chord", "describe", "-t", t}, equalTo: [][]string{{"info", "chord", "describe", "-t", t, "--precedeSharp=false"}, {"info", "chord", "describe", "-t", t, "-s=false"}}})
